@@ -490,7 +490,20 @@ def _template_concurrent(draw):
     return {"runs": [base, second] + draw(st.lists(run_st, max_size=2)), "same_size": False}
 
 
-hist_st = st.one_of(_free_hist_st, _free_hist_st, _free_hist_st, _template_hist(), _template_concurrent())
+@st.composite
+def _template_damage(draw):
+    """A module cached under a hook in run 1 (optionally also un-hooked before, so that a plain cache file exists), its cache files cut off
+    before run 2 (an interrupted write), run 2 under the same hook, run 3 without any hook; optional further free runs."""
+    m = draw(st.sampled_from(["pa", "pb", "pkg.sub"]))
+    ck = draw(st.sampled_from(["a", "b", "none"]))
+    base = {"edit": None, "same_mtime": False, "damage": None, "dont_write": False, "disabled": False, "lazy_spy": draw(st.booleans()), "edit_during": None,
+            "hooks": [[[m], ck]], "order": [m], "after": [], "source_date_epoch": None, "concurrent": None, "reload": None}
+    plain = dict(base, hooks=[])
+    runs = ([plain] if draw(st.booleans()) else []) + [base, dict(base, damage=m), plain] + draw(st.lists(run_st, max_size=1))
+    return {"runs": runs, "same_size": False, "symlinked": draw(st.sampled_from([False, False, True]))}
+
+
+hist_st = st.one_of(_free_hist_st, _free_hist_st, _free_hist_st, _template_hist(), _template_concurrent(), _template_damage())
 
 
 def run(ctx):
